@@ -55,7 +55,10 @@ for _d in (3, 2):
 
             def term(i, k, j):
                 e = M[k, j] - I[k, j]
-                return h.implies(h.abs(e) < 1e-8, h.abs(e * P[i][j]) <= 1e-8 * h.abs(P[i][j]))
+                # two-sided form of |e*p| <= 1e-8*|p| (no sign test on the product itself, so
+                # the obligation that uses it is linear in the monomials)
+                b = 1e-8 * h.abs(P[i][j])
+                return h.implies(h.abs(e) < 1e-8, h.all([e * P[i][j] <= b, -(e * P[i][j]) <= b]))
 
             for k in range(d):
                 for j in range(d):
